@@ -1,10 +1,29 @@
-import os
+import os, re
 from checks.generic import standard
 
-THEOREMS = ["c06_gate_sound", "c06_identity_real", "c06_never_denied", "c06_deny_no_position", "c06_never_outside",
+THEOREMS = ["c06_gate_sound", "c06_identity_real", "c06_never_denied", "c06_deny_no_position", "c06_never_outside", "c06_never_outside_blocks", "c06_never_outside_numeric",
+            "c06_obs_gate_is_spec", "c06_obs_route_is_spec", "c06_obs_identity_is_spec",
+            "c06_cookie_window", "c06_cookie_outside_window_refused", "c06_grace_refuted",
             "c06_basic_only_without_cookie", "c06_webui_without_password", "c06_csrf",
             "c06_routes", "c06_public_no_effect", "c06_csrf_partial", "c06_csrf_nonget",
-            "c06_get_state_changers", "c06_get_effects_refuted", "c06_old_manage_refuted", "c06_old_register_finish_refuted", "c06_old_tls_refuted"]
+            "c06_get_state_changers", "c06_get_effects_refuted", "c06_old_manage_refuted", "c06_old_register_finish_refuted", "c06_old_auth_finish_refuted", "c06_old_tls_refuted"]
+
+def _field(line, name, default="?"):
+    m = re.search(r"\b%s=(\S+)" % name, line or "")
+    return m.group(1) if m else default
+
+# keys of the model oracle: the defect shape (handler, credential class), never incidental values
+def _gate_key(line):
+    return "C06:model-oracle:gate-admits:%s" % _field(line, "class")
+
+def _route_key(line):
+    return "C06:model-oracle:route:%s:%s" % (_field(line, "handler"), _field(line, "class"))
+
+GATE_WHAT = ("checkAuth admitted an identity / level on this case although the conclusion of c06_gate_sound "
+             "(the request proves that identity at that level, the level has a bit of the mask, no foreign origin on a non-GET) "
+             "evaluates to false on the observation (gate_conclusion, proved equivalent to the statement)")
+ROUTE_WHAT = ("a protected effect was observed, or an identity was logged, on this case although the request is not accepted by the "
+              "route's declared gate (acceptsb / identity_okb evaluated on the observation, proved equivalent to the conclusion of c06_routes)")
 
 def run(ctx):
     return standard(ctx,
@@ -13,6 +32,8 @@ def run(ctx):
         obl=("Obl_C06.v", ["c06_routes_classified", "c06_no_stale_rows", "c06_keys_unique"]),
         cases=("CasesC06.v", [("c06_gate_mismatches", "checkAuth (user, level, status, issue instant) = model check_auth on every shape (single credentials and certificate x cookie x basic-auth combinations) x mask x method x origin x deny list", "CasesC06_gate.idx"),
                               ("c06_route_mismatches", "per route of the regenerated mux: logged identity = model, observed effects within the model's"),
+                              ("c06_window_gate_mismatches", "checkAuth on session cookies minted around the request (exp / nbf a few seconds to an hour before and after the clock, iat in the future, with and without a basic-auth header) = model check_auth at a clock reading inside the interval measured around the call (nanoseconds; no other tolerance)", "CasesC06_wgate.idx"),
+                              ("c06_window_route_mismatches", "the same cookies through representative routes (certgen, profile, TOTP generation, token manager, OpenID authorization, U2F sign request): logged identity and effects = model run at a clock reading inside the measured interval", "CasesC06_wroute.idx"),
                               ("c06_webui_mismatches", "getRequiredWebUIAuthLevel() = model webui_level on every subset of the backend names and on the loaded configurations", "CasesC06_webui.idx")],
                "CasesC06_route.idx"),
         trusted=["signature verification (go-jose, crypto/x509 chain building) is symbolic in the model: the harness knows by construction which token / chain is genuine and the real verifier has to find out from the bytes",
@@ -20,8 +41,13 @@ def run(ctx):
                  "effects are what the response, the two tables, the challenge/push maps and the fake VIP / Okta / STS services can show",
                  "fake Symantec VIP, Okta and AWS STS endpoints; SQLite stands in for PostgreSQL"],
         assumptions=["TLS chain verification is done by crypto/tls; the harness supplies VerifiedChains built from certificates really signed by the state's CA keys",
-                     "the password attempt limiter is configured wide open (limiter_ok = true in every case)"],
-        unproved=["handler steps after admission (parameter validation, storage) are one environment bit per request in the route model; the effects of /webauthn/AuthFinish, /userinfo, the federated callback and Okta poll approval are not provoked by the harness (no provider fake), only their refusal is observed; /u2f/RegisterResponse, /webauthn/RegisterFinish, /u2f/SignResponse, /totp/ValidateNew and /idp/oauth2/token are driven to their effect with genuine material (software token, pending TOTP secret, an authorization code issued by the authorization endpoint)"],
+                     "the password attempt limiter is configured wide open (limiter_ok = true in every case)",
+                     "net.SplitHostPort / net.ParseIP (the TCP peer) and asn1.Unmarshal (the address delegation extension) run in front of the model's netblock arithmetic: the peer travels as IPv4 octets (IPv4-mapped included) / other IPv6 / unparsable, the extension as families of (bytes, bit length)"],
+        unproved=["handler steps after admission (parameter validation, storage) are one environment bit per request in the route model; the effects of /userinfo and the federated callback are not provoked by the harness (no provider fake), only their refusal is observed; /u2f/RegisterResponse, /webauthn/RegisterFinish, /u2f/SignResponse, /webauthn/AuthFinish, /totp/ValidateNew and /idp/oauth2/token are driven to their effect with genuine material (software token, pending TOTP secret, an authorization code issued by the authorization endpoint), the Okta OTP / push / poll handlers through a fake authn API (the owner of one account has approved her push)"],
+        model_oracles=[("c06_gate_violating", _gate_key, GATE_WHAT, "CasesC06_gate.idx"),
+                       ("c06_route_violating", _route_key, ROUTE_WHAT, "CasesC06_route.idx"),
+                       ("c06_window_gate_violating", _gate_key, GATE_WHAT, "CasesC06_wgate.idx"),
+                       ("c06_window_route_violating", _route_key, ROUTE_WHAT, "CasesC06_wroute.idx")],
         timeout=1500,
         # the probes restore the profile tables thousands of times: keep the scratch database off the disk
         env=({"TMPDIR": "/dev/shm"} if os.path.isdir("/dev/shm") and os.access("/dev/shm", os.W_OK) else None))
